@@ -468,10 +468,10 @@ class UCMM( device.Object ):
                 ( 'sin_addr',		'127.0.0.1',	( device.TCPIP.class_id, 1, 5 ),	lambda d: d.IFACEADDRS.ip_address ),
                 ( 'sin_family',		2,		None,					None ),
                 ( 'sin_port',		44818, 		None,					None),
-                ( 'vendor_id',		0,		( device.Identity.class_id, 1, 1 ),	lambda d: d.INT ),
-                ( 'device_type',	0,		( device.Identity.class_id, 1, 2 ),	lambda d: d.INT ),
-                ( 'product_code',	0,		( device.Identity.class_id, 1, 3 ),	lambda d: d.INT ),
-                ( 'product_revision',	0,		( device.Identity.class_id, 1, 4 ),	lambda d: d.INT ),
+                ( 'vendor_id',		0,		( device.Identity.class_id, 1, 1 ),	lambda d: d.UINT ),
+                ( 'device_type',	0,		( device.Identity.class_id, 1, 2 ),	lambda d: d.UINT ),
+                ( 'product_code',	0,		( device.Identity.class_id, 1, 3 ),	lambda d: d.UINT ),
+                ( 'product_revision',	0,		( device.Identity.class_id, 1, 4 ),	lambda d: d.UINT ),
                 ( 'status_word',	0,		( device.Identity.class_id, 1, 5 ),	lambda d: d.WORD ),
                 ( 'serial_number',	0,		( device.Identity.class_id, 1, 6 ),	lambda d: d.UDINT ),
                 ( 'product_name',	0,		( device.Identity.class_id, 1, 7 ),	lambda d: d.SSTRING ),
